@@ -213,6 +213,7 @@ func Check(r *ev.Run, replay string) {
 	Pool(func(y func(progen.Program)) { progen.F6(y) }, run)
 	Pool(func(y func(progen.Program)) { progen.F8(false, y) }, run)
 	Pool(func(y func(progen.Program)) { progen.F9(y) }, run)
+	Pool(func(y func(progen.Program)) { progen.F10(y) }, run)
 	Pool(func(y func(progen.Program)) { progen.F2Operand(y) }, run)
 	Pool(func(y func(progen.Program)) { progen.F8(true, y) }, run)
 	r.Set("f4_max_operations", f4ops)
